@@ -48,7 +48,8 @@ theorem netRegister_core (n : Net) (id fd : Nat) (d : Dir) (s : Sock) (h : Inv n
     (hfree : s.get d = none) :
     ∃ n', netRegister n id fd d = some (n', .ok) ∧ Inv n' ∧ n'.scan = n.scan ∧
       (∀ i d', slot n' i d' = if i = fd ∧ d' = d then some id else slot n i d') ∧ EntriesKept n' n fd ∧
-      (∀ (j' : Nat) (e' : PollFd), n'.fds[j']? = some e' → e'.fd = fd → e'.rev.dir d = false) := by
+      (∀ (j' : Nat) (e' : PollFd), n'.fds[j']? = some e' → e'.fd = fd → e'.rev.dir d = false) ∧
+      (∀ (j : Nat) (e : PollFd), n.fds[j]? = some e → ∃ e' : PollFd, n'.fds[j]? = some e' ∧ e'.fd = e.fd ∧ e'.rev = e.rev) := by
   have h1a := h.inv0.i1a; have h1b := h.inv0.i1b; have h2 := h.inv0.i2; have h3 := h.inv0.i3
   have h4 := h.inv0.i4; have h5 := h.inv0.i5; have h0 := h.inv0.ev0; have h6 := h.i6
   obtain ⟨hlt, _⟩ := Array.getElem?_eq_some_iff.mp hs
@@ -71,7 +72,7 @@ theorem netRegister_core (n : Net) (id fd : Nat) (d : Dir) (s : Sock) (h : Inv n
       simp
     simp only [hF, push_set]
     clear hF hS1 hS2
-    refine ⟨_, rfl, ⟨?_, ?_⟩, rfl, ?_, ?_, ?_⟩
+    refine ⟨_, rfl, ⟨?_, ?_⟩, rfl, ?_, ?_, ?_, ?_⟩
     · have hi1a : ∀ (i : Nat) (s1 : Sock) (p : Nat),
           ((n.S.setIfInBounds fd (s.set d (some id))).setIfInBounds fd { s.set d (some id) with pollpos := some n.fds.size })[i]? = some s1 →
           s1.pollpos = some p →
@@ -104,6 +105,12 @@ theorem netRegister_core (n : Net) (id fd : Nat) (d : Dir) (s : Sock) (h : Inv n
       cases d <;> simp only [Sock.set, Sock.get, setDir, Array.getElem?_setIfInBounds, Array.getElem?_push, Array.size_setIfInBounds, Array.size_push] at * <;> grind
     · intro j' e' hj hfd
       cases d <;> simp only [Sock.set, Sock.get, setDir, Bits.dir, Array.getElem?_setIfInBounds, Array.getElem?_push, Array.size_setIfInBounds, Array.size_push] at * <;> grind
+    · intro j e hj
+      obtain ⟨hjlt, _⟩ := Array.getElem?_eq_some_iff.mp hj
+      refine ⟨e, ?_, rfl, rfl⟩
+      rw [Array.getElem?_push]
+      have : ¬ j = n.fds.size := by omega
+      simp [this, hj]
   | some pp =>
     simp only [Option.isNone_some, Bool.false_eq_true, if_false]
     have hS1 : (n.S.setIfInBounds fd (s.set d (some id)))[fd]? = some (s.set d (some id)) := by
@@ -113,7 +120,7 @@ theorem netRegister_core (n : Net) (id fd : Nat) (d : Dir) (s : Sock) (h : Inv n
     simp only [hS1, hpp', he]
     have h44 := h4 pp e s he (by rw [hefd]; exact hs)
     have h55 := h5 pp e he
-    refine ⟨_, rfl, ⟨?_, ?_⟩, rfl, ?_, ?_, ?_⟩
+    refine ⟨_, rfl, ⟨?_, ?_⟩, rfl, ?_, ?_, ?_, ?_⟩
     · cases d <;> simp only [Sock.set, Sock.get, setDir] at * <;>
       (constructor <;> (intros; simp only [Array.getElem?_setIfInBounds, Array.size_setIfInBounds] at *; grind))
     · unfold I6 at *
@@ -126,6 +133,13 @@ theorem netRegister_core (n : Net) (id fd : Nat) (d : Dir) (s : Sock) (h : Inv n
       cases d <;> simp only [Sock.set, Sock.get, setDir, Array.getElem?_setIfInBounds] at * <;> grind
     · intro j' e' hj hfd
       cases d <;> simp only [Sock.set, Sock.get, setDir, Bits.dir, Array.getElem?_setIfInBounds] at * <;> grind
+    · intro j e0 hj
+      by_cases hjp : pp = j
+      · subst hjp
+        rw [he] at hj; cases hj
+        exact ⟨{ e with ev := setDir e.ev d true },
+          by simp [Array.getElem?_setIfInBounds, (Array.getElem?_eq_some_iff.mp he).1], rfl, rfl⟩
+      · exact ⟨e0, by simp [Array.getElem?_setIfInBounds, hjp, hj], rfl, rfl⟩
 
 
 /-- `events_network_register`: never faults under the invariants and keeps them; EEXIST exactly when
@@ -134,7 +148,8 @@ theorem netRegister_spec (n : Net) (id fd : Nat) (d : Dir) (h : Inv n) :
     (∃ id0, slot n fd d = some id0 ∧ netRegister n id fd d = some (n, .eexist)) ∨
     (slot n fd d = none ∧ ∃ n', netRegister n id fd d = some (n', .ok) ∧ Inv n' ∧ n'.scan = n.scan ∧
       (∀ i d', slot n' i d' = if i = fd ∧ d' = d then some id else slot n i d') ∧ EntriesKept n' n fd ∧
-      (∀ (j' : Nat) (e' : PollFd), n'.fds[j']? = some e' → e'.fd = fd → e'.rev.dir d = false)) := by
+      (∀ (j' : Nat) (e' : PollFd), n'.fds[j']? = some e' → e'.fd = fd → e'.rev.dir d = false) ∧
+      (∀ (j : Nat) (e : PollFd), n.fds[j]? = some e → ∃ e' : PollFd, n'.fds[j]? = some e' ∧ e'.fd = e.fd ∧ e'.rev = e.rev)) := by
   by_cases hge : fd ≥ n.S.size
   · right
     have hnone : n.S[fd]? = none := Array.getElem?_eq_none_iff.mpr hge
@@ -154,9 +169,9 @@ theorem netRegister_spec (n : Net) (id fd : Nat) (d : Dir) (h : Inv n) :
       unfold netRegister
       simp only [hge, hgsz, if_true, if_false]
       rfl
-    obtain ⟨n', hr, hinv, hsc, hslots, hent, hrev⟩ :=
+    obtain ⟨n', hr, hinv, hsc, hslots, hent, hrev, hkeep⟩ :=
       netRegister_core g id fd d {} hg hgs (by cases d <;> rfl)
-    refine ⟨n', by rw [heq]; exact hr, hinv, hsc, ?_, hent, hrev⟩
+    refine ⟨n', by rw [heq]; exact hr, hinv, hsc, ?_, hent, hrev, hkeep⟩
     intro i d'
     rw [hslots i d', grow_slot]
   · have hlt : fd < n.S.size := by omega
